@@ -36,6 +36,12 @@ func genVirtual(t *rapid.T) pipesim.Plan {
 			RetryStorm: true, MaxRecords: 16, MaxSources: 2,
 		})
 	}
+	if rapid.IntRange(0, 7).Draw(t, "many_holders") == 0 {
+		return pipesim.GenPlan(t, pipesim.GenOpts{
+			Virtual: true, AllowSync: true, AllowBatched: true, AllowHold: true, AllowRefuse: true, AllowNoMatch: true,
+			ManyHolders: true, MaxRecords: 18, MaxSources: 3, MaxCapacity: 16, MinCapacity: 16,
+		})
+	}
 	return pipesim.GenPlan(t, pipesim.GenOpts{
 		Virtual: true, AllowSync: true, AllowBatched: true, AllowFailures: false, AllowDQ: false, AllowSplit: true,
 		AllowHold: true, AllowRefuse: true, AllowWaitFor: false, AllowNoMatch: true, MaxRecords: 40, MaxSources: 3, MaxCapacity: 8,
